@@ -1,6 +1,6 @@
 """C34 rueidislock: Lock.tla (exhaustive + negative configs + liveness), TLC-generated and counterexample-derived
 scenarios driven through real lockers over fakeredis (lockdrv), traces judged by LockTrace.tla."""
-import json, os, re, shutil, tempfile
+import json, os, random, re, shutil, tempfile, threading
 from lib import vlib
 from checks import lockaside_common
 
@@ -9,43 +9,100 @@ FAMILY = 'addons'
 CLIENT = {1: 1, 2: 1, 3: 2}           # MC_lock_gen.cfg: ClientOf = <<1, 1, 2>>
 CLIENT2 = {1: 1, 2: 2}                # counterexample configs: ClientOf = <<1, 2>>
 
-QUICK = ['MC_lock_q1.cfg', 'MC_lock_q2.cfg', 'MC_lock_q3.cfg', 'MC_lock_q5.cfg', 'MC_lock_q6.cfg', 'MC_lock_q7.cfg']
-THOROUGH = ['MC_lock_t1.cfg', 'MC_lock_t2.cfg', 'MC_lock_t3.cfg', 'MC_lock_t4.cfg', 'MC_lock_t5.cfg', 'MC_lock_t7.cfg']
-NEG = [('MC_lock_neg_order1.cfg', 'DoneBeforeRelease'), ('MC_lock_neg_order2.cfg', 'MutualExclusion'),
-       ('MC_lock_neg_acqerr.cfg', 'NoLostWakeup'), ('MC_lock_neg_handoff.cfg', 'NoLostWakeup'),
-       ('MC_lock_neg_token.cfg', 'ExtendsOwnKeyOnly'),
-       ('MC_lock_neg_thresh.cfg', 'CancelAtMajorityLoss'), ('MC_lock_neg_inval.cfg', 'NoLostWakeup')]
+# quick: small exhaustive configurations (q3, 160 394 states, moved to the thorough tier in round 2: t1 and q8 cover the
+# third-party delete in the quick tier's budget)
+QUICK = ['MC_lock_q1.cfg', 'MC_lock_q2.cfg', 'MC_lock_q5.cfg', 'MC_lock_q6.cfg', 'MC_lock_q7.cfg', 'MC_lock_q8.cfg',
+         'MC_lock_q9.cfg']
+THOROUGH = ['MC_lock_q3.cfg', 'MC_lock_t1.cfg', 'MC_lock_t2.cfg', 'MC_lock_t3.cfg', 'MC_lock_t4.cfg', 'MC_lock_t5.cfg',
+            'MC_lock_t7.cfg', 'MC_lock_t8.cfg']
+# negative configurations whose counterexample is replayed against the real lockers (run first, by the driver side)
+CEXNEG = [('MC_lock_neg_order1.cfg', 'DoneBeforeRelease'), ('MC_lock_neg_order2.cfg', 'MutualExclusion'),
+          ('MC_lock_neg_acqerr.cfg', 'NoLostWakeup'), ('MC_lock_neg_nilinval.cfg', 'NoLostWakeup')]
+NEG = [('MC_lock_neg_handoff.cfg', 'NoLostWakeup'), ('MC_lock_neg_token.cfg', 'ExtendsOwnKeyOnly'),
+       ('MC_lock_neg_thresh.cfg', 'CancelAtMajorityLoss'), ('MC_lock_neg_inval.cfg', 'NoLostWakeup'),
+       ('MC_lock_neg_mixed.cfg', 'CancelAtMajorityLoss')]
+# the time side (LockTime.tla): the extend protocol keeps the key alive and implies the rule LockTrace.tla applies
+TIME = [('MC_locktime.cfg', None), ('MC_locktime_additive.cfg', 'KeyAliveWhileExtending'),
+        ('MC_locktime_stale.cfg', 'KeyAliveWhileExtending'), ('MC_locktime_short.cfg', 'FreshExpiry')]
 
 
 CEX = {}      # negative config -> TLC result (its error trace is replayed against the real code)
+_LOCK = threading.Lock()
+
+
+def _tlc(ctx, module, cfg, expect=None, **kw):
+    """ctx.run_tlc, safe to call from the model thread while the driver side runs."""
+    r = vlib.tlc(FAMILY, module, cfg, **kw)
+    with _LOCK:
+        ctx.tlc_runs.append(r.summary())
+        ctx.states += r.distinct
+        ctx.transitions += r.generated
+        if expect is not None:
+            if r.violated != expect and r.violated != 'temporal':
+                ctx.inconclusive.append('negative config %s/%s: expected violation of %s, got %s %s' % (
+                    FAMILY, cfg, expect, r.violated, r.error or ''))
+        elif not r.ok:
+            ctx.inconclusive.append('TLC %s/%s %s: violated=%s error=%s\n%s' % (
+                FAMILY, module, cfg, r.violated, r.error, r.output[-3000:]))
+    return r
 
 
 def model(ctx, th):
-    for c in QUICK + (THOROUGH if th else []):
-        ctx.run_tlc(FAMILY, 'MCLock', c, workers=8, timeout=1500)
-    for c, inv in NEG:
-        CEX[c] = ctx.run_tlc(FAMILY, 'MCLock', c, expect_violation=inv, workers=4, timeout=600)
-    ctx.run_tlc(FAMILY, 'MCLock', 'MC_lock_live_prompt.cfg', workers=2, timeout=600)
-    if th:
-        ctx.run_tlc(FAMILY, 'MCLock', 'MC_lock_live_wait.cfg', workers=8, timeout=1500)
-        ctx.run_tlc(FAMILY, 'MCLock', 'MC_lock_live_prompt2.cfg', workers=8, timeout=1500)
-    ctx.run_tlc(FAMILY, 'MCLock', 'MC_lock_live_neg.cfg', expect_violation='Prompt', workers=2, timeout=600)
+    """The pure model part; runs in its own thread next to the scenario generation and the driver."""
+    try:
+        for c in QUICK + (THOROUGH if th else []):
+            _tlc(ctx, 'MCLock', c, workers=4, timeout=1500)
+        for c, inv in NEG:
+            _tlc(ctx, 'MCLock', c, expect=inv, workers=4, timeout=600)
+        for c, inv in TIME:
+            _tlc(ctx, 'LockTime', c, expect=inv, workers=2, timeout=600)
+        _tlc(ctx, 'MCLock', 'MC_lock_live_prompt.cfg', workers=2, timeout=600)
+        if th:
+            _tlc(ctx, 'MCLock', 'MC_lock_live_wait.cfg', workers=4, timeout=1500)
+            _tlc(ctx, 'MCLock', 'MC_lock_live_prompt2.cfg', workers=4, timeout=1500)
+        _tlc(ctx, 'MCLock', 'MC_lock_live_neg.cfg', expect='Prompt', workers=2, timeout=600)
+        _tlc(ctx, 'MCLock', 'MC_lock_live_mixed.cfg', expect='Prompt', workers=2, timeout=600)
+    except Exception as ex:                                   # pragma: no cover
+        with _LOCK:
+            ctx.inconclusive.append('model part crashed: %r' % (ex,))
+
+
+def cex_models(ctx):
+    for c, inv in CEXNEG:
+        CEX[c] = _tlc(ctx, 'MCLock', c, expect=inv, workers=4, timeout=600)
 
 
 # ------------------------------------------------------------------------------------ TLC behaviour -> driver scenario
-def project(hist, client, sid, cls, noretry=False):
+def project(hist, client, sid, cls, noretry=False, relat='first'):
     """Keeps the environment-controlled steps of a behaviour of Lock.tla, in order. A delkey whose effect is followed
     by another caller's progress before the local bookkeeping (Count) becomes a delayed delkey reply."""
-    steps, lastacq, begun = [], {}, {}
+    steps, lastacq, begun, relpend = [], {}, {}, []
+    # The user's release: cancel() and the DELs of the keys are one burst in the real code, several steps in the model.
+    # What matters is the order of the DELs relative to the environment's steps: the burst is placed where the model
+    # gives up the first (relat='first') or the last (relat='last') key of that try.
+    relpos = {}
+    for n, r in enumerate(hist):
+        if r['a'] == 'Release':
+            dk = []
+            for j in range(n + 1, len(hist)):
+                if hist[j]['p'] == r['p'] and hist[j]['a'] == 'Begin':
+                    break
+                if hist[j]['p'] == r['p'] and hist[j]['a'] == 'DelKey':
+                    dk.append(j)
+            if dk:
+                relpos[dk[0] if relat == 'first' else dk[-1]] = r['p']
     for n, r in enumerate(hist):
         a, p, i, m = r['a'], r['p'], r['i'], r['m']
+        if relpos.get(n) in relpend:
+            relpend.remove(relpos[n])
+            steps.append(dict(op='rel', h=client[relpos[n]]))
         if a == 'Begin':
             begun[p] = m                     # the call is placed where its first acquisition step happens
         elif a in ('LoopStep', 'AcqErr') and p in begun:
             lastacq[p] = len(steps)
             steps.append(dict(op='acq', h=client[p], m=begun.pop(p)))
         if a == 'Release':
-            steps.append(dict(op='rel', h=client[p]))
+            relpend.append(p)
         elif a == 'IoErr':
             gap = False
             dk = next((j for j in range(n + 1, len(hist)) if hist[j]['a'] == 'DelKey' and hist[j]['p'] == p and hist[j]['i'] == i), None)
@@ -66,9 +123,13 @@ def project(hist, client, sid, cls, noretry=False):
         elif a == 'Expire':
             steps.append(dict(op='expire', k=i))
         elif a == 'Disconnect':
+            steps.append(dict(op='sleep', ms=60))       # whoever is about to park has parked
             steps.append(dict(op='cut', h=p))
+            steps.append(dict(op='sleep', ms=60))
         elif a == 'SrcCancel':
             steps.append(dict(op='cancel', h=client[p]))
+    for p in relpend:
+        steps.append(dict(op='rel', h=client[p]))
     return dict(id=sid, lockers=max(client.values()), noretry=noretry, noloop=True, steps=steps, **{'class': cls})
 
 
@@ -103,6 +164,8 @@ def hist_of_counterexample(out, modes):
             a, p, i, m = act, 0, args[0], ''
         elif act in ('Disconnect', 'SrcCancel', 'DelKey', 'Count'):
             a, m = act, ''
+        elif act == 'Finish':                 # repaired order: the delkey and the counter update are one step
+            a, m = 'DelKey', ''
         if a:
             hist.append(dict(a=a, p=p, i=i, m=m))
         prev = cur
@@ -114,17 +177,17 @@ def scenarios(ctx, th):
     # 1. the counterexamples of the negative configurations (the code as found), replayed several times because the
     #    real run only approximates the order of the behaviour
     for cfg, cls in (('MC_lock_neg_order1.cfg', 'cex-order1'), ('MC_lock_neg_order2.cfg', 'cex-order2'),
-                     ('MC_lock_neg_acqerr.cfg', 'cex-acqerr')):
+                     ('MC_lock_neg_acqerr.cfg', 'cex-acqerr'), ('MC_lock_neg_nilinval.cfg', 'cex-nilinval')):
         r = CEX.get(cfg)
         if r is None:
             r = vlib.tlc(FAMILY, 'MCLock', cfg, workers=4, timeout=600)
             ctx.tlc_runs.append(r.summary())
         hist = hist_of_counterexample(r.output, ('with', 'try'))
-        if not any(x['a'] in ('IoErr', 'AcqErr') for x in hist):
+        if not any(x['a'] in ('IoErr', 'AcqErr', 'Disconnect') for x in hist):
             ctx.inconclusive.append('no counterexample behaviour from %s: %s' % (cfg, r.error))
             continue
         for rep in range(4 if th else 3):
-            scs.append(project(hist, CLIENT2, '%s-%d' % (cls, rep), cls))
+            scs.append(project(hist, CLIENT2, '%s-%d' % (cls, rep), cls, relat='first' if rep == 1 else 'last'))
         scs.append(project(hist, CLIENT2, '%s-cut' % cls, cls, noretry=True))
     # 1b. the counterexample of MC_lock_neg_handoff (two WithContext callers on one NOLOOP locker, the source context of
     #     one ends in the middle of its try): the race needs sub-millisecond timing, so the delay of the cancellation is swept
@@ -132,13 +195,21 @@ def scenarios(ctx, th):
         scs.append(dict(id='cex-handoff-%d' % n, lockers=1, noretry=False, noloop=True, **{'class': 'cex-handoff'},
                         steps=[dict(op='acq', h=1, m='try'), dict(op='rel', h=1), dict(op='sleep', ms=40),
                                dict(op='acqcancel', h=1, ms=40 + 90 * n), dict(op='acq', h=1, m='with'), dict(op='sleep', ms=100)]))
+    # 1c. every combination of causes by which a held lock loses its majority (MC_lock_lossgen: exhaustive, one holder);
+    #     the specification predicts the context cancelled at the crossing step (`done`), LockTrace.tla holds the real
+    #     locker to it (CancelAtKnownLoss); the lock is then held for longer than KnownMs
+    scs += loss_scenarios(ctx, th)
+    # 1d. slow extend round trips over several ticks (LockTime.tla: the key must stay alive; LockTrace.tla: ExtendsInTime)
+    for n in range(4 if th else 3):
+        scs.append(dict(id='slowext-%d' % n, lockers=1, noretry=False, noloop=n != 2, **{'class': 'slowext'},
+                        steps=[dict(op='acq', h=1, m='with'), dict(op='slowext', h=1, ms=30 + 15 * n), dict(op='sleep', ms=750)]))
     # 2. random behaviours of the model with every kind of environment step
     r = vlib.tlc(FAMILY, 'MCLock', 'MC_lock_gen.cfg', simulate=(400 if th else 90), depth=40, seed=ctx.seed,
                  collect_cases=True, timeout=900)
     ctx.tlc_runs.append(r.summary())
     seen = set()
     for n, hist in enumerate(r.cases):
-        sc = project(hist, CLIENT, 'gen%d' % n, 'generated', noretry=(n % 5 == 4))
+        sc = project(hist, CLIENT, 'gen%d' % n, 'generated', noretry=(n % 5 == 4), relat='first' if n % 2 else 'last')
         key = json.dumps(sc['steps'], sort_keys=True)
         if key in seen or not any(s['op'] not in ('acq', 'rel') for s in sc['steps']):
             continue
@@ -147,6 +218,50 @@ def scenarios(ctx, th):
         scs.append(sc)
     if not r.cases:
         ctx.inconclusive.append('scenario generation produced nothing: %s\n%s' % (r.error, r.output[-1500:]))
+    return scs
+
+
+HOLD_MS = 2000        # > KnownMs of LockTrace.cfg
+
+
+def loss_scenarios(ctx, th):
+    r = vlib.tlc(FAMILY, 'MCLock', 'MC_lock_lossgen3.cfg' if th else 'MC_lock_lossgen.cfg', workers=1, collect_cases=True, timeout=900)
+    with _LOCK:
+        ctx.tlc_runs.append(r.summary())
+    if not r.ok or not r.cases:
+        ctx.inconclusive.append('majority-loss case generation failed: %s\n%s' % (r.error or r.violated, r.output[-1500:]))
+        return []
+    byenv = {}
+    for c in r.cases:
+        if c['done'] is not True:
+            ctx.inconclusive.append('Lock.tla does not predict a cancelled context for %s' % json.dumps(c['h']))
+            continue
+        env = tuple((x['a'], x['i']) for x in c['h'] if x['a'] in ('ExtDelete', 'Expire', 'IoErr'))
+        byenv.setdefault(env, c['h'])
+    envs = sorted(byenv)
+    rng = random.Random(ctx.seed)
+    if not th:
+        # quick: every sequence of causes once (keys chosen by the seed), the rest in the thorough tier
+        bycause = {}
+        for e in envs:
+            bycause.setdefault(tuple(a for a, _ in e), []).append(e)
+        envs = [rng.choice(v) for _, v in sorted(bycause.items())]
+    else:
+        # thorough: every minimal case (two environment steps), a seeded sample of the longer ones
+        longer = [e for e in envs if len(e) > 2]
+        envs = [e for e in envs if len(e) <= 2] + rng.sample(longer, min(len(longer), 70))
+    scs = []
+    for n, env in enumerate(envs):
+        steps = [dict(op='acq', h=1, m='with'), dict(op='sleep', ms=130)]
+        for a, i in env:
+            if a == 'ExtDelete':
+                steps.append(dict(op='xdel', k=i))
+            elif a == 'Expire':
+                steps.append(dict(op='expire', k=i))
+            else:
+                steps.append(dict(op='fail', h=1, k=i, m='cut' if n % 4 == 3 else 'err'))
+        steps.append(dict(op='sleep', ms=HOLD_MS))
+        scs.append(dict(id='loss-%d' % n, lockers=1, noretry=n % 4 == 3, noloop=n % 3 != 2, steps=steps, **{'class': 'loss'}))
     return scs
 
 
@@ -166,9 +281,22 @@ def signature(prop, evs):
         return 'lock-two-live-contexts ' + ('after-own-delkey' if own else 'other')
     if prop == 'Prompt':
         return 'lock-context-live-after-majority-loss'
+    if prop == 'CancelAtKnownLoss':
+        # which causes made up the majority the holder was told of
+        causes = set()
+        for e in evs:
+            if e['ev'] == 'Fault' and e['res'] in ('err', 'cut', 'acqerr') and e['k'] >= 0:
+                causes.add('io')
+            elif e['ev'] in ('Ext', 'Acq') and e['res'] == 'no':
+                causes.add('notlocked')
+        return 'lock-context-live-after-known-majority-loss causes=' + '+'.join(sorted(causes))
+    if prop == 'ExtendsInTime':
+        return 'lock-extend-expiry-not-send-time-plus-validity'
     if prop == 'NoStuckWaiter':
         if any(e['ev'] == 'Stuck' and e['res'] == 'hung' for e in evs):
             return 'lock-call-never-returns'
+        if any(e['ev'] == 'Cut' for e in evs) and not any(f['res'] == 'acqerr' for f in faults):
+            return 'lock-waiter-parked-on-free-lock after-connection-loss'
         return 'lock-waiter-parked-on-free-lock ' + ('after-acquire-errors' if any(f['res'] == 'acqerr' for f in faults) else 'missed-wakeup')
     return 'lock-' + prop
 
@@ -194,7 +322,7 @@ def drive(ctx, th, scs):
             evs = events[e['first'] - 1:e['last']]
             for prop in sorted(props):
                 sig = signature(prop, evs)
-                if prop in ('Prompt', 'NoStuckWaiter') and not confirm(ctx, binp, e['scenario'], prop, tmp):
+                if prop in ('Prompt', 'NoStuckWaiter', 'CancelAtKnownLoss') and not confirm(ctx, binp, e['scenario'], prop, tmp):
                     ctx.notes.append('%s on scenario %s did not reproduce (timing)' % (prop, e['scenario']['id']))
                     continue
                 keep = os.path.join(vlib.VERIF, 'replays', ctx.pid)
@@ -226,7 +354,16 @@ def confirm(ctx, binp, sc, prop, tmp):
 
 def run(ctx):
     th = ctx.tier == 'thorough'
+    mt = None
     if os.environ.get('VERIF_ONLY') != 'drive':      # development aid (mutation self-tests): skip the pure model part
-        model(ctx, th)
-    scs = scenarios(ctx, th)
-    drive(ctx, th, scs)
+        # the pure model part and the driver side are independent: they run side by side (two jobs at a time)
+        mt = threading.Thread(target=model, args=(ctx, th))
+        mt.start()
+    try:
+        if os.environ.get('VERIF_ONLY') != 'model':
+            cex_models(ctx)
+            scs = scenarios(ctx, th)
+            drive(ctx, th, scs)
+    finally:
+        if mt is not None:
+            mt.join()
